@@ -139,6 +139,80 @@ def close(model, impl, scale=None):
     return bool(np.all(np.abs(model - impl) <= 1e-9 * s))
 
 
+def facet_side_oracle(ctx):
+    """which neighbouring cell a facet basis lives on: with the piecewise constant element (one DOF per cell)
+    the interpolated trace of the vector x = (DOF of cell k -> value k) IS the cell number.  Plain facet arrays:
+    side s uses f2t[s]; oriented facet sets (OrientedBoundary, ori = 1 flips): side 0 uses f2t[ori], side 1
+    the other neighbour.  The functional / linear / bilinear forms on that basis inherit it."""
+    import skfem
+    from skfem import FacetBasis, InteriorFacetBasis, Basis, Functional
+    from skfem.generic_utils import OrientedBoundary
+    rng = ctx.rng
+    P0 = {"line": "ElementLineP0", "tri": "ElementTriP0", "quad": "ElementQuad0", "tet": "ElementTetP0",
+          "hex": "ElementHex0"}
+    for rep in range(ctx.scale(24, 200)):
+        kind = rng.choice(list(P0))
+        m, info = meshes.gen_first_order(rng, kind)
+        if m.nelements < 2 or m.nelements > 40:
+            continue
+        e = getattr(skfem, P0[kind])()
+        cb = Basis(m, e)
+        x = np.zeros(cb.N)
+        x[cb.element_dofs[0]] = np.arange(m.nelements, dtype=float)
+        inter = np.nonzero(m.f2t[1] >= 0)[0]
+        if len(inter) == 0:
+            continue
+        F = np.array(sorted(rng.sample([int(f) for f in inter], rng.randint(1, len(inter)))), dtype=np.int64)
+        ori = np.array([rng.randint(0, 1) for _ in F])
+        how = rng.choice(["oriented", "oriented", "facets_around", "plain", "interior-basis"])
+        side = rng.randint(0, 1)
+        try:
+            if how == "plain":
+                fb = FacetBasis(m, e, facets=F, side=side)
+                want = m.f2t[side, F]
+            elif how == "interior-basis":
+                fb = InteriorFacetBasis(m, e, facets=F, side=side)
+                want = m.f2t[side, F]
+            elif how == "facets_around":
+                cells = sorted(rng.sample(range(m.nelements), rng.randint(1, m.nelements - 1)))
+                ob = m.facets_around(np.array(cells, dtype=np.int64))
+                if len(ob) == 0:
+                    continue
+                F, ori = np.asarray(ob), np.asarray(ob.ori)
+                if (m.f2t[1, F] < 0).any() and side == 1:
+                    side = 0
+                fb = FacetBasis(m, e, facets=ob, side=side)
+                want = m.f2t[ori, F] if side == 0 else m.f2t[1 - ori, F]
+                # by construction side 0 is the inside of the cell set
+                if side == 0 and not set(int(k) for k in want) <= set(cells):
+                    ctx.violation("facets_around(cells): side 0 of the oriented set is not inside the cell set",
+                                  {"mesh": meshes.mesh_descr(m), "cells": cells}, {"what": "facet-side", "how": how})
+            else:
+                ob = OrientedBoundary(F, ori)
+                fb = FacetBasis(m, e, facets=ob, side=side)
+                want = m.f2t[ori, F] if side == 0 else m.f2t[1 - ori, F]
+            got = np.asarray(fb.interpolate(x).value)
+            ctx.case({"facet-side": how, "side": side, "t": m.t.tolist(), "F": F.tolist(), "ori": ori.tolist()},
+                     nontrivial=True)
+            ctx.count("facet-side-oracle:" + how)
+            ok = got.shape[0] == len(F) and np.array_equal(got, np.broadcast_to(want[:, None].astype(float), got.shape))
+            if ok:
+                # ... and the forms see the same function
+                meas = Functional(lambda w: 1. + 0. * w.x[0]).elemental(fb)
+                val = Functional(lambda w: w["u"]).assemble(fb, u=x)
+                ok = abs(val - float((meas * want).sum())) <= 1e-11 * max(1.0, abs(val))
+            if not ok:
+                ctx.violation("a facet basis evaluates the discrete function in the wrong neighbouring cell",
+                              {"mesh": meshes.mesh_descr(m), "how": how, "side": side, "facets": F.tolist(),
+                               "ori": ori.tolist(), "cells_seen": np.asarray(got)[:, 0].tolist()
+                               if got.ndim == 2 and got.shape[0] == len(F) else None, "cells_expected": want.tolist()},
+                              {"what": "facet-side", "how": how, "side": side})
+        except Exception as ex:
+            ctx.violation("facet basis on an (oriented) facet set raised " + exc_kind(ex),
+                          {"mesh": meshes.mesh_descr(m), "how": how, "side": side, "err": repr(ex)},
+                          {"what": "raise-basis"})
+
+
 def run(ctx):
     from skfem import BilinearForm, LinearForm, Functional
     from skfem.assembly.form.form import Form, FormExtraParams
@@ -158,6 +232,7 @@ def run(ctx):
     if not getattr(ctx, "no_lean", False):
         ctx.prove(["SkfemVerif.Props.C01"], ["SkfemVerif/Props/C01.lean"])
     rng = ctx.rng
+    facet_side_oracle(ctx)
     n = ctx.scale(200, 1500)
     reqs, post = [], []
     for it in range(n):
@@ -235,6 +310,35 @@ def run(ctx):
             ctx.violation("assembly raised " + exc_kind(ex), {"case": descr2, "err": repr(ex)},
                           {"what": "raise-assemble"})
             continue
+        # ---------------- a coefficient vector and its pre-interpolated field enter identically (complex too)
+        try:
+            if "f" in kwargs or rng.random() < 0.3:
+                cvec = xvec + (1j * np.array([rng.randint(-4, 4) / 2 for _ in range(ub.N)]) if cplx else 0)
+                kv = dict(kwargs, f=cvec)
+                kf = dict(kwargs, f=ub.interpolate(cvec))
+
+                def pform(u_, v_, w):
+                    return u_ * v_ * w["f"] if not isinstance(u_, tuple) else 0.
+                fr = fields.tuple_components(as_tuple(ub.interpolate(cvec)), maxorder=0)
+
+                def gfun(w):
+                    tot = 0. * np.asarray(w["h"])
+                    for (lab, tacc) in fr:
+                        tot = tot + fields.get_tuple_comp(as_tuple(w["f"]), tacc) * (1. + np.asarray(w["x"])[0])
+                    return tot
+                dt = np.complex128 if cplx else np.float64
+                s_vec = Functional(gfun, dtype=dt).assemble(ub, **kv)
+                s_fld = Functional(gfun, dtype=dt).assemble(ub, **kf)
+                ctx.count("vector-vs-field-parameter" + (":complex" if cplx else ""))
+                if abs(s_vec - s_fld) > 1e-12 * max(1.0, abs(s_fld)):
+                    ctx.violation("a coefficient vector passed as parameter gives another functional than its "
+                                  "pre-interpolated field",
+                                  {"case": descr2, "vector": [complex(c) for c in cvec.tolist()],
+                                   "with_vector": complex(s_vec), "with_field": complex(s_fld)},
+                                  {"what": "vector-vs-field", "complex": bool(cplx)})
+        except Exception as ex:
+            ctx.violation("parameter equivalence evaluation raised " + exc_kind(ex), {"case": descr2, "err": repr(ex)},
+                          {"what": "raise-consistency"})
         # ---------------- search: the statement on the implementation alone
         try:
             u = np.array([rng.randint(-4, 4) / 2 for _ in range(ub.N)])
